@@ -90,6 +90,22 @@ def typestate_eval(ck, F):
         for cb, t in clears:
             ck.ob(R, "evaluate_cell|spill-clear-before-mark", ec.dominates(cb, e) or e in ec.reachable_from(cb),
                   "spill clearing is not on the path before the Evaluating mark", *ec.loc(cb))
+    # while the cell is being computed it stays Evaluating: nothing that can evaluate other cells (and so come back to
+    # this one) runs after an Evaluated mark
+    evals = set(F.find("model::Model::evaluate_cell")) | set(F.find("model::Model::evaluate_node_in_context")) | set(F.find("model::Model::evaluate_range"))
+    for v in V:
+        after = ec.strictly_after(v)
+        bad = None
+        for cb, t in ec.calls():
+            if cb in after or cb == v and False:
+                c = ec.callee(t)
+                if c in F.heads and (c in evals or P.reaches(c, evals)):
+                    bad = (cb, ec.callee_q(t))
+                    break
+        f, l = ec.loc(v)
+        ck.ob(R, "evaluate_cell|no-evaluation-after-Evaluated-mark@%d" % V.index(v), bad is None,
+              "evaluate_cell marks the cell Evaluated and then still calls %s, which can evaluate other cells: a cycle "
+              "through this cell would read its stale stored value instead of #CIRC!" % (bad[1] if bad else ""), f, l)
     # CIRC producers
     allowed_codecs = ("consume_error", "get_error_by_name", "get_error_by_english_name", "clone", "decode_in_place", "visit_enum")
     for p in sorted(F.body_paths()):
@@ -669,3 +685,103 @@ def _classify_iteration(b, bi, t):
             return None, "consumed by %s" % last
         return None, "consumed by %s" % last
     return None, "undetermined"
+
+
+def err_order(ck, F, rule="ERR-ORDER"):
+    """Left-to-right error precedence of binary operators: in every function that evaluates a `left` and a `right`
+    operand node with the same fallible helper, the right operand's error payload is only ever read in code dominated by
+    the Ok arm of a test of the left result -- so when both fail, the left error is the one returned."""
+    n = 0
+    for path in sorted(F.body_paths()):
+        h = F.heads[path]
+        if h.get("bkind") != "fn" or "/functions/" in h["file"]:
+            continue
+        b = F.body(path)
+        names = {b.local_name(i): i for i in range(1, b.nargs + 1)}
+        if "left" not in names or "right" not in names:
+            continue
+        # calls whose argument is the parameter
+        by = {}
+        for bi, t in b.calls():
+            c = b.callee(t)
+            if c not in F.heads or place_proj(t["dest"]):
+                continue
+            out_ty = F.heads[c].get("output") or b.locals[t["dest"]["l"]]
+            if "result::Result<" not in b.locals[t["dest"]["l"]]:
+                continue
+            for a in t["args"]:
+                p = op_place(a)
+                base = None
+                if p is not None and not place_proj(p) and p["l"] in (names["left"], names["right"]):
+                    base = p["l"]
+                else:
+                    rt = b.ref_target(a)
+                    if rt is not None and rt["l"] in (names["left"], names["right"]) and all(e[0] == "*" for e in place_proj(rt)):
+                        base = rt["l"]
+                if base is not None:
+                    by.setdefault(c, {})["left" if base == names["left"] else "right"] = (bi, t["dest"]["l"])
+        for c, lr in by.items():
+            if "left" not in lr or "right" not in lr:
+                continue
+            n += 1
+            (lb, ll), (rb, rl) = lr["left"], lr["right"]
+            # aliases: locals the result is moved to, and tuple slots it is packed into
+            def aliases(l0):
+                al = {(l0, None)}
+                for _ in range(3):
+                    for bi, si, s in b.stmts():
+                        if place_proj(s["p"]):
+                            continue
+                        rv = s["rv"]
+                        if rv["k"] == "use":
+                            q = op_place(rv["o"])
+                            if q is not None and not place_proj(q) and (q["l"], None) in al:
+                                al.add((s["p"]["l"], None))
+                        elif rv["k"] == "agg" and rv.get("agg") == "tuple":
+                            for i, o in enumerate(rv["ops"]):
+                                q = op_place(o)
+                                if q is not None and not place_proj(q) and (q["l"], None) in al:
+                                    al.add((s["p"]["l"], i))
+                return al
+            AL, AR = aliases(ll), aliases(rl)
+
+            def matches(pl, al):
+                """projection remaining after the alias prefix, or None"""
+                pj = place_proj(pl)
+                for (l, slot) in al:
+                    if pl["l"] != l:
+                        continue
+                    if slot is None:
+                        return pj
+                    if pj and pj[0][0] == "f" and pj[0][1] == slot:
+                        return pj[1:]
+                return None
+            # Ok edges of discriminant tests of the left result
+            ok_edges = []
+            for bi, blk in enumerate(b.blocks):
+                t = blk["t"]
+                if t["k"] != "switch":
+                    continue
+                for s in blk["s"]:
+                    if s["rv"]["k"] == "discr" and matches(s["rv"]["p"], AL) == []:
+                        for v, tg in t["targets"]:
+                            if v == "0" and len(b.preds(tg)) == 1:
+                                ok_edges.append(tg)
+            # reads of the right result's Err payload
+            reads = []
+            for bi, si, s in b.stmts():
+                from mir import rvalue_places
+                for pl in rvalue_places(s["rv"]):
+                    rest = matches(pl, AR)
+                    if rest and rest[0][0] == "dc" and rest[0][1] == "Err":
+                        reads.append((bi, si))
+            f, l = b.loc(rb)
+            qn = b.qname.split("::", 1)[-1]
+            ck.ob(rule, "%s|right-error-read" % qn, bool(reads), "%s: no read of the right operand's error found (anchor lost?)" % qn, f, l)
+            for (bi, si) in reads:
+                ok = any(b.dominates(e, bi) for e in ok_edges)
+                f2, l2 = b.loc(bi, si)
+                ck.ob(rule, "%s|right-error-only-after-left-Ok@%d" % (qn, reads.index((bi, si))), ok,
+                      "%s can return the right operand's error without having established that the left operand is Ok: with two failing operands the right error wins" % qn,
+                      f2, l2, sample={"fn": qn, "helper": F.qname_of(c)})
+    ck.note("binary_handlers", n)
